@@ -1,4 +1,4 @@
-import argparse, json, os, shutil, sys, time
+import argparse, fcntl, json, os, shutil, sys, time
 from . import common as C
 from .registry import PROPS
 
@@ -20,6 +20,39 @@ def restore_generated():
             if cur != want:
                 with open(dst, "w") as f:
                     f.write(want)
+
+
+# Checks may overlap in time, and they share one Lean project.  The checks below regenerate proof inputs inside it
+# (or call lake again while they run): each holds the project exclusively for its whole run.  Every other check holds
+# it shared while it builds, audits its theorems and takes its own copy of the driver, and never writes into it.
+EXCLUSIVE = {"C08", "C11", "C12", "C15", "C16", "C18", "C19"}
+_lock_fd = None
+
+
+def lean_lock(exclusive):
+    global _lock_fd
+    os.makedirs(C.WORK, exist_ok=True)
+    _lock_fd = open(os.path.join(C.WORK, "lean.lock"), "w")
+    fcntl.flock(_lock_fd, fcntl.LOCK_EX if exclusive else fcntl.LOCK_SH)
+
+
+def lean_unlock():
+    global _lock_fd
+    if _lock_fd is not None:
+        fcntl.flock(_lock_fd, fcntl.LOCK_UN)
+        _lock_fd.close()
+        _lock_fd = None
+
+
+def own_driver(log):
+    src = os.path.join(C.LEAN, ".lake", "build", "bin", "vdriver")
+    dst = os.path.join(C.BIN, "vdriver")
+    os.makedirs(C.BIN, exist_ok=True)
+    if os.path.exists(src):
+        tmp = dst + ".tmp"
+        shutil.copy2(src, tmp)
+        os.replace(tmp, dst)
+    log.append({"step": "driver copy", "ok": os.path.exists(dst)})
 
 
 class Ctx:
@@ -53,9 +86,20 @@ def main(argv):
     t0 = time.time()
     shutil.rmtree(ctx.workdir, ignore_errors=True)
     os.makedirs(ctx.workdir, exist_ok=True)
-    restore_generated()
-    if args.replay:
-        return replay(ctx, spec, args.replay)
+    ctx.exclusive = prop in EXCLUSIVE or bool(args.replay)
+    lean_lock(ctx.exclusive)
+    try:
+        restore_generated()
+        if args.replay:
+            return replay(ctx, spec, args.replay)
+        return check(ctx, spec, t0)
+    finally:
+        if ctx.exclusive:
+            restore_generated()
+        lean_unlock()
+
+
+def check(ctx, spec, t0):
 
     proof = dict(obligations=0, discharged=0, theorems=[], build_ok=True, audit_hits=[])
     # 1. harness against the current tree
@@ -80,6 +124,8 @@ def main(argv):
     mods = spec.get("lean_modules", [])
     bok, bout = C.build_lean(mods + ["vdriver"], ctx.log)
     proof["build_ok"] = bok
+    if bok:
+        own_driver(ctx.log)   # when the build breaks, the search runs against the last good copy
     broken = []
     if not bok:
         broken.append(dict(what="lake build failed", output=bout[-3000:]))
@@ -112,6 +158,8 @@ def main(argv):
         if e not in have:
             broken.append(dict(what=f"expected theorem {e} was not checked"))
     # 4. correspondence + failing-input search
+    if not ctx.exclusive:
+        lean_unlock()
     if ok:
         try:
             spec["run"](ctx, spec)
@@ -126,7 +174,8 @@ def main(argv):
 
 
 def finish(ctx, spec, proof, t0):
-    restore_generated()
+    if ctx.exclusive:
+        restore_generated()
     known = [k for k in C.load_known_findings() if k.get("property") == ctx.prop]
     out_lines = []
     nviol = 0
@@ -198,6 +247,7 @@ def replay(ctx, spec, path):
         print("harness build failed")
         return 1
     C.build_lean(["vdriver"], ctx.log)
+    own_driver(ctx.log)
     rf = spec.get("replay")
     if rf is None:
         print(json.dumps(obj, indent=1))
